@@ -651,3 +651,66 @@ Section LoaderExamples.
       map (fun r => contents_of (cl_store (ls_cl st2)) (sn_ids r)) (ls_snaps st2) = [[(0, 20)]].
   Proof. exact locked_builder_numbers_proof. Qed.
 End LoaderExamples.
+
+(* ================================================================ searching while a RELOADED input is being appended
+   (added after seeded change C13-7 was missed: core.go's EvtSearchNew handler relabelled the snapshot it KEEPS - the new
+   list is still empty - with the new input revision, so the matcher's merger cache served the replaced list's result for
+   the reloaded list once both had the same number of items).
+   ReloadSpec: what a running fzf must publish at a moment at which lines[:n] of the current generation are present
+   (published_ok, evaluated by the harness on every plateau of a gated loader), and the guarantee the matcher's hist_ok
+   needs from the coordinator in the vocabulary of generations (labels_separate).
+   CoordRevModel: core.go's labelling of snapshots with (major) input revisions: restart, EvtReadNew, EvtReadFin,
+   EvtSearchNew with/without a reload command, reload-sync, a reload while the loader is still running. *)
+From Fzf Require Import ReloadSpec CoordRevModel ReloadProofs.
+
+(* a passed check means: the counts describe the frozen prefix, the listed indexes are exactly those of the lines of the
+   prefix that contain the query, every reported text is the line read at that index *)
+Theorem published_ok_sound : forall q lines n total mcount reported,
+  published_ok q lines n total mcount reported = true ->
+  0 <= n <= Z.of_nat (length lines) /\ total = n /\ mcount = Z.of_nat (length reported) /\
+  length reported = length (published_filter q lines n) /\
+  (forall i, In i (map fst reported) <->
+     exists k t, nth_error (frozen_prefix lines n) k = Some t /\ i = Z.of_nat k /\ contains q t = true) /\
+  (forall i t, In (i, t) reported -> 0 <= i /\ nth_error (frozen_prefix lines n) (Z.to_nat i) = Some t).
+Proof. exact published_ok_sound_proof. Qed.
+
+(* the filter of a frozen prefix does not depend on anything appended afterwards *)
+Theorem frozen_prefix_ignores_appends : forall q lines later n,
+  0 <= n <= Z.of_nat (length lines) ->
+  published_filter q (lines ++ later) n = published_filter q lines n.
+Proof. exact frozen_prefix_ignores_appends_proof. Qed.
+
+(* for ALL event sequences of the coordinator (pushes, EvtReadNew, EvtReadFin, search requests with and without a reload
+   command, reload-sync, reloads while reading): two requests sent to the matcher under the same revision search the
+   same generation - with equal counts the same items (clause 1 of hist_ok, for sessions without minor bumps) *)
+Theorem coordinator_labels_separate : forall evs, labels_separate (c_posted (c_run false c_init evs)).
+Proof. exact coordinator_labels_separate_proof. Qed.
+
+(* refuted witness: refreshing the label of a KEPT snapshot gives two requests with one revision, one count, two lists *)
+Theorem relabel_kept_snapshot_refuted :
+  exists evs, ~ labels_separate (c_posted (c_run true c_init evs)) /\
+              exists a b, In a (c_posted (c_run true c_init evs)) /\ In b (c_posted (c_run true c_init evs)) /\
+                          sr_rev a = sr_rev b /\ sr_count a = sr_count b /\ sr_gen a <> sr_gen b.
+Proof. exact relabel_kept_snapshot_refuted_proof. Qed.
+
+Print Assumptions published_ok_sound.
+Print Assumptions frozen_prefix_ignores_appends.
+Print Assumptions coordinator_labels_separate.
+Print Assumptions relabel_kept_snapshot_refuted.
+
+Section ReloadExamples.
+  (* non-vacuity: lines b1 b2 b3, two present, query "1": fzf lists item 0 = "b1"; the replaced list's "a1" is refused *)
+  Example published_ok_nonvacuous :
+    published_ok [49] [[98; 49]; [98; 50]; [98; 49; 49]] 2 2 1 [(0, [98; 49])] = true /\
+    published_ok [49] [[98; 49]; [98; 50]; [98; 49; 49]] 2 2 1 [(0, [97; 49])] = false /\
+    published_ok [49] [[98; 49]; [98; 50]; [98; 49; 49]] 3 3 1 [(0, [98; 49])] = false.
+  Proof. vm_compute. repeat split. Qed.
+
+  (* the coordinator as it is: the same session posts requests whose labels tell the two lists apart *)
+  Example coordinator_labels_nonvacuous :
+    map (fun r => (sr_gen r, sr_count r, sr_rev r)) (rev (c_posted (c_run false c_init relabel_witness)))
+      = [(0, 2, 0); (0, 2, 0); (1, 2, 1)]%nat /\
+    map (fun r => (sr_gen r, sr_count r, sr_rev r)) (rev (c_posted (c_run true c_init relabel_witness)))
+      = [(0, 2, 0); (0, 2, 1); (1, 2, 1)]%nat.
+  Proof. vm_compute. split; reflexivity. Qed.
+End ReloadExamples.
